@@ -122,6 +122,12 @@ func runHistProperty(t *testing.T, prop string, quick, thorough int) {
 			hist.RunHistoryOpt(t, col, prop, p, seed, func(w *hist.World) { w.StreamExtends = true }, nil)
 			continue
 		}
+		if prop == "C14" {
+			// the expired-deliveries pruner is what ends a retention period
+			// physically: every run of it is held to "only what has expired"
+			hist.RunHistoryOpt(t, col, prop, p, seed, func(w *hist.World) { w.CheckJobs = true }, nil)
+			continue
+		}
 		hist.RunHistory(t, col, prop, p, seed)
 	}
 }
